@@ -463,10 +463,47 @@ def r3(ctx, cfg, R="C07.R3"):
             x = peel(x)
             return x[0] == "call" and x[1].endswith("::strip_prefix") and len(x[2]) == 2 and is_param(x[2][1], "namespace") and \
                 contains(x[2][0], lambda y: y[0] == "field" and y[2] == "0" and peel(y[1])[0] == "bound" and peel(y[1])[1] == "elem")
+        def is_len_ns(x):
+            x = peel(x)
+            return x[0] == "call" and x[1].endswith("len") and is_param(x[2][0], "namespace")
+
+        def is_elem_key(x):
+            x = peel(x)
+            return x[0] == "field" and x[2] == "0" and peel(x[1])[0] == "bound" and peel(x[1])[1] == "elem"
+
+        def is_cut(x):
+            # the raw key without its first len(namespace) bytes: `k[namespace.len()..]`, or the owned key drained in place
+            x0 = x
+            while x0[0] == "vp":
+                x0 = x0[2]
+            if x0[0] == "upd" and is_elem_key(x0[1]) and len(x0[2]) == 1:
+                how = x0[2][0][1]
+                return how[0] == "mutby" and how[1] == "std::vec::Vec::drain" and len(how[2]) == 1 and peel(how[2][0])[0] == "agg" and \
+                    peel(how[2][0])[1].endswith("RangeTo") and is_len_ns(peel(how[2][0])[2][0][1])
+            x = peel(x)
+            return x[0] == "call" and x[1].rsplit("::", 1)[-1] == "index" and len(x[2]) == 2 and is_elem_key(x[2][0]) and peel(x[2][1])[0] == "agg" and \
+                peel(x[2][1])[1].endswith("RangeFrom") and is_len_ns(peel(x[2][1])[2][0][1])
+
+        def carries(conds, pol):
+            return any(c[0] == "bool" and c[1][0] == "starts_with" and c[1][2] is pol and len(c[1][1]) == 2 and is_param(c[1][1][1], "namespace") and
+                       is_elem_key(c[1][1][0]) for e, c in conds)
         somes, nones, others = [], [], []
+        cut_form = False
         for val, conds, site in q.value_cases(P, g, 0):
             pv = peel(val)
-            if pv[0] == "agg" and pv[1].endswith("Option::Some"):
+            if pv[0] == "agg" and pv[1].endswith("Option::Some") and peel(pv[2][0][1])[0] == "agg" and len(peel(pv[2][0][1])[2]) == 2 and \
+                    is_cut(peel(pv[2][0][1])[2][0][1]):
+                # `if k.starts_with(&prefix) { Some((cut(k), v)) } else { None }`
+                tup0 = peel(pv[2][0][1])
+                v0 = peel(tup0[2][1][1])
+                if carries(conds, True) and v0[0] == "field" and v0[2] == "1" and peel(v0[1])[0] == "bound":
+                    cut_form = True
+                    somes.append(tup0)
+                else:
+                    others.append(pv)
+            elif pv[0] == "agg" and pv[1].endswith("Option::None") and carries(conds, False):
+                nones.append(pv)
+            elif pv[0] == "agg" and pv[1].endswith("Option::Some"):
                 somes.append(peel(pv[2][0][1]))
             elif (pv[0] == "agg" and pv[1].endswith("Option::None") or
                   # `strip_prefix(..)?` inside the closure: the residual of a None is None
@@ -476,7 +513,7 @@ def r3(ctx, cfg, R="C07.R3"):
             else:
                 others.append(pv)
         ok = ok and len(somes) == 1 and not others and len(nones) >= 1
-        if ok:
+        if ok and not cut_form:
             tup = somes[0]
             ok = tup[0] == "agg" and tup[1] == "tuple" and len(tup[2]) == 2
             if ok:
